@@ -93,6 +93,9 @@ pub enum Workload {
   /// rzmq PUSH connected to a raw peer that drops the connection `drops` times after reading a
   /// message each; the socket has to come back and deliver the next message
   RawReconnect { knobs: Knobs, drops: u8, size: u32 },
+  /// several PUSH sockets at once into one PULL (the io_uring end): the connections compete for
+  /// the shared receive ring
+  FanIn { knobs: Knobs, senders: u8, per_sender: u16, size: u32, senders_uring: bool },
   /// raw PUSH peer feeding an rzmq PULL with generated chunking
   RawFeed { knobs: Knobs, msgs: Vec<Vec<u32>>, chunks: Vec<u16>, maxmsgsize: Option<u32>, tail: FeedTail },
 }
@@ -188,7 +191,8 @@ fn workload_strategy(cfg: UCfg) -> impl Strategy<Value = Workload> {
     )
       .prop_map(move |(msgs, chunks, maxmsgsize, tail)| Workload::RawFeed { knobs: k, msgs, chunks, maxmsgsize, tail });
     let reconn = (1u8..4, prop_oneof![Just(64u32), Just(cfg.send_size), Just(cfg.recv_size + 1)]).prop_map(move |(drops, size)| Workload::RawReconnect { knobs: k, drops, size });
-    prop_oneof![5 => stream, 1 => stall, 2 => hs, 2 => feed, 1 => reconn]
+    let fanin = (prop_oneof![4 => 2u8..9, 1 => 9u8..13], 10u16..120, prop_oneof![Just(64u32), Just(cfg.recv_size / 2), Just(cfg.recv_size), Just(cfg.recv_size + 1), Just(8192)], any::<bool>()).prop_map(move |(senders, per_sender, size, senders_uring)| Workload::FanIn { knobs: k, senders, per_sender, size, senders_uring });
+    prop_oneof![5 => stream, 1 => stall, 2 => hs, 2 => feed, 1 => reconn, 2 => fanin]
   })
 }
 
@@ -199,7 +203,14 @@ pub struct Case {
 }
 
 fn case_strategy(max_w: usize) -> impl Strategy<Value = Case> {
-  cfg_strategy().prop_flat_map(move |cfg| proptest::collection::vec(workload_strategy(cfg), 1..max_w).prop_map(move |workloads| Case { cfg, workloads }))
+  cfg_strategy().prop_flat_map(move |cfg| {
+    proptest::collection::vec(workload_strategy(cfg), 1..max_w).prop_map(move |mut workloads| {
+      // fan-in workloads go last: with nine or more connections they leave handlers behind
+      // (known finding), which must not be charged to whatever runs after them in the same child
+      workloads.sort_by_key(|w| matches!(w, Workload::FanIn { .. }));
+      Case { cfg, workloads }
+    })
+  })
 }
 
 // ------------------------------------------------------------------------------------------
@@ -258,12 +269,13 @@ fn kind(w: &Workload) -> &'static str {
     Workload::RawHandshake { .. } => "raw_handshake",
     Workload::RawFeed { .. } => "raw_feed",
     Workload::RawReconnect { .. } => "raw_reconnect",
+    Workload::FanIn { .. } => "fan_in",
   }
 }
 
 fn knobs_of(w: &Workload) -> Knobs {
   match w {
-    Workload::Stream { knobs, .. } | Workload::RawStall { knobs, .. } | Workload::RawHandshake { knobs, .. } | Workload::RawFeed { knobs, .. } | Workload::RawReconnect { knobs, .. } => *knobs,
+    Workload::Stream { knobs, .. } | Workload::RawStall { knobs, .. } | Workload::RawHandshake { knobs, .. } | Workload::RawFeed { knobs, .. } | Workload::RawReconnect { knobs, .. } | Workload::FanIn { knobs, .. } => *knobs,
   }
 }
 
@@ -287,6 +299,7 @@ fn judge(run: &Run, sub: &str, case: &Case, results: &[WResult], rec: &mut CaseR
       Workload::RawHandshake { .. } => "w_raw_handshake",
       Workload::RawFeed { .. } => "w_raw_feed",
       Workload::RawReconnect { .. } => "w_raw_reconnect",
+      Workload::FanIn { .. } => "w_fan_in",
     });
     if let Workload::Stream { batches, mech, .. } = w {
       rec.label_if(batches.len() > 1, "churn");
@@ -353,7 +366,7 @@ fn brief(d: &[Vec<String>]) -> Vec<String> {
 }
 
 pub fn run(run: &mut Run) {
-  run.rule = "case = (pool configuration: send pool 2..16 buffers of 4..64 KiB, receive ring 2..16 buffers of 4..64 KiB, default zero-copy / multishot) + 1..5 workloads, each run on the Tokio backend and on io_uring in one child process. Workloads: rzmq-to-rzmq streams (PUSH/PULL, DEALER/ROUTER echo, REQ/REP, PUB/SUB; io_uring on both ends / sender / receiver; NULL, PLAIN, CURVE incl. wrong credentials; 1..3 reconnects; frame sizes at 0, the header boundary, the zero-copy threshold, the receive buffer, the send buffer and multiples), a raw peer that stops reading (back-pressure, SNDTIMEO), a raw peer that breaks the handshake in 7 ways, a raw peer feeding chunked traffic ending in a sentinel / an oversize frame / half a frame then FIN / FIN right behind the last message. Non-trivial = at least one connection was actually driven by an io_uring handler (fd life-cycle log). Distinct = case hash".into();
+  run.rule = "case = (pool configuration: send pool 2..16 buffers of 4..64 KiB, receive ring 2..16 buffers of 4..64 KiB, default zero-copy / multishot) + 1..5 workloads, each run on the Tokio backend and on io_uring in one child process. Workloads: rzmq-to-rzmq streams (PUSH/PULL, DEALER/ROUTER echo, REQ/REP, PUB/SUB; io_uring on both ends / sender / receiver; NULL, PLAIN, CURVE incl. wrong credentials; 1..3 reconnects; frame sizes at 0, the header boundary, the zero-copy threshold, the receive buffer, the send buffer and multiples), a raw peer that stops reading (back-pressure, SNDTIMEO), several PUSH sockets at once into one PULL (2..13 connections competing for the receive ring), a raw peer that breaks the handshake in 7 ways, a raw peer feeding chunked traffic ending in a sentinel / an oversize frame / half a frame then FIN / FIN right behind the last message. Non-trivial = at least one connection was actually driven by an io_uring handler (fd life-cycle log). Distinct = case hash".into();
   run.assumptions = vec![
     "equivalence is judged on delivered messages per connection, the set of monitor event kinds, the set of error kinds and what a raw peer observed; counts of timeouts under back-pressure and timing are not compared".into(),
     "a workload whose reference (Tokio) run already fails its accounting is not judged".into(),
@@ -1251,8 +1264,94 @@ pub mod child {
     obs
   }
 
+  async fn run_fan_in(k: Knobs, senders: u8, per_sender: u16, size: u32, senders_uring: bool, uring: bool) -> Obs {
+    let mut obs = Obs::default();
+    let ctx = Context::new().unwrap();
+    let mut ro = base_opts(k, uring);
+    ro.extend([(opt::RCVTIMEO, i(3000)), (opt::RCVHWM, i(1000))]);
+    let (pull, ep) = match stack::bound(&ctx, "PULL", stack::Transport::Tcp, &ro).await {
+      Ok(x) => x,
+      Err(e) => {
+        obs.inconclusive = Some(e);
+        return obs;
+      }
+    };
+    let mut tasks = Vec::new();
+    for sid in 0..senders {
+      let mut so = base_opts(k, uring && senders_uring);
+      so.extend([(opt::SNDTIMEO, i(10000)), (opt::SNDHWM, i(1000)), (opt::LINGER, i(5000))]);
+      let (ctx2, ep2) = (ctx.clone(), ep.clone());
+      tasks.push(tokio::spawn(async move {
+        let push = match stack::connected(&ctx2, "PUSH", &ep2, &so).await {
+          Ok(p) => p,
+          Err(e) => return Err(e),
+        };
+        tokio::time::sleep(Duration::from_millis(100)).await;
+        for q in 0..per_sender as u32 {
+          if let Err(e) = push.send_multipart(acc_message(sid as u16 + 1, q, &[(size as usize).max(stack::ACC_OVERHEAD)])).await {
+            return Err(format!("send:{}", stack::err_kind(&e)));
+          }
+        }
+        Ok(push)
+      }));
+    }
+    let total = senders as usize * per_sender as usize;
+    let mut next: std::collections::HashMap<u16, u32> = Default::default();
+    let mut got = 0usize;
+    while got < total {
+      match pull.recv_multipart().await {
+        Ok(fr) => {
+          let b = bodies(fr);
+          match b.first().map(|f| parse_acc(f)) {
+            Some(Ok(a)) => {
+              let want = next.entry(a.sender).or_insert(0);
+              if a.msg_seq != *want {
+                obs.abs_violation.get_or_insert(format!("sender {}: message {} arrived where {} was due (per-connection order)", a.sender, a.msg_seq, want));
+                break;
+              }
+              *want += 1;
+              got += 1;
+            }
+            Some(Err(e)) => {
+              obs.abs_violation.get_or_insert(format!("damaged message: {}", e));
+              break;
+            }
+            None => break,
+          }
+        }
+        Err(e) => {
+          obs.errors.insert(format!("recv:{}", stack::err_kind(&e)));
+          break;
+        }
+      }
+    }
+    if got < total && obs.abs_violation.is_none() {
+      obs.abs_violation = Some(format!("{} senders x {} messages of {} bytes: only {} of {} arrived, then the receive timed out after 3 s", senders, per_sender, size, got, total));
+    }
+    obs.delivered.push(vec![format!("all-arrived-in-order:{}", got == total)]);
+    let mut keep = Vec::new();
+    for t in tasks {
+      match tokio::time::timeout(Duration::from_secs(15), t).await {
+        Ok(Ok(Ok(p))) => keep.push(p),
+        Ok(Ok(Err(e))) => {
+          obs.errors.insert(e);
+        }
+        _ => {
+          obs.errors.insert("sender:stuck".into());
+        }
+      }
+    }
+    for p in keep {
+      let _ = p.close().await;
+    }
+    let _ = pull.close().await;
+    let _ = tokio::time::timeout(Duration::from_secs(10), ctx.term()).await;
+    obs
+  }
+
   async fn run_workload(w: &Workload, uring: bool) -> Obs {
     match w {
+      Workload::FanIn { knobs, senders, per_sender, size, senders_uring } => run_fan_in(*knobs, *senders, *per_sender, *size, *senders_uring, uring).await,
       Workload::RawReconnect { knobs, drops, size } => run_raw_reconnect(*knobs, *drops, *size, uring).await,
       Workload::Stream { pattern, side, sender_binds, knobs, mech, batches, small_hwm } => run_stream(*pattern, *side, *sender_binds, *knobs, *mech, batches, *small_hwm, uring).await,
       Workload::RawStall { knobs, msgs, size, sndhwm, sndtimeo_ms, stall_ms, resume } => run_raw_stall(*knobs, *msgs, *size, *sndhwm, *sndtimeo_ms, *stall_ms, *resume, uring).await,
